@@ -213,3 +213,43 @@ def walk_tree(root):
                 with open(full, 'rb') as f:
                     out[rel] = (f.read(), st.st_mtime_ns)
     return out
+
+
+class ShortReads:
+    """A seekable binary stream whose read(n) may return fewer than n bytes before the end (as raw files, pipes and
+    sockets may): never an empty result before EOF.  Wraps bytes."""
+
+    def __init__(self, data, seed=0):
+        import io
+        import random as _r
+        self._b, self._r = io.BytesIO(data), _r.Random(seed)
+        self.short_reads = 0
+
+    def read(self, n=-1):
+        left = len(self._b.getbuffer()) - self._b.tell()
+        if n is None or n < 0 or n > left:
+            n = left
+        if n > 1 and self._r.random() < 0.5:
+            n = self._r.randint(1, n - 1)
+            self.short_reads += 1
+        return self._b.read(n)
+
+    def readinto(self, b):
+        data = self.read(len(b))
+        b[:len(data)] = data
+        return len(data)
+
+    def seek(self, *a):
+        return self._b.seek(*a)
+
+    def tell(self):
+        return self._b.tell()
+
+    def seekable(self):
+        return True
+
+    def readable(self):
+        return True
+
+    def close(self):
+        pass
